@@ -426,10 +426,26 @@ func H_C10_rangerResidue() {
 	if kind == 3 {
 		second = `{{ range v := c }}[{{ v }}]{{ else }}empty{{ end }}`
 	}
+	// round 8: the later execution nests a range over the same kind inside the range (a
+	// ranger handed back to its pool twice by the first execution would serve both loops)
+	nested := ndBool("nested")
+	if nested {
+		second = `{{ range k, v := c }}[{{ v }}{{ range k2, v2 := c3 }}({{ v2 }}){{ end }}]{{ else }}empty{{ end }}`
+		if kind == 3 {
+			second = `{{ range v := c }}[{{ v }}{{ range k2, v2 := c3 }}({{ v2 }}){{ end }}]{{ else }}empty{{ end }}`
+		}
+	}
 	run := func(set *Set, name string, n int) string {
 		vars := make(VarMap)
 		vars.Set("c", mk(n))
 		vars.Set("c2", mk(3))
+		if kind >= 2 {
+			vars.Set("c3", []int{7, 8}) // (a channel or an ints() ranger is used up by the first pass: the inner loop ranges over a slice)
+		} else if kind == 0 {
+			vars.Set("c3", map[string]int{"only": 7})
+		} else {
+			vars.Set("c3", mk(2))
+		}
 		vars.SetFunc("boom", hxFail)
 		out, err := hxExec(set, name, vars, nil)
 		if err != nil {
@@ -456,6 +472,14 @@ func H_C10_rangerResidue() {
 	}
 	if kind == 0 && n2 == 1 {
 		ref = "[1]"
+	}
+	if nested {
+		if kind != 0 || n2 <= 1 {
+			vfAssert(got == want, "nested ranges: the same bytes as on a fresh Set")
+		} else {
+			vfAssert(len(got) == len(want), "nested ranges: as many elements as on a fresh Set")
+		}
+		return
 	}
 	if kind != 0 || n2 <= 1 {
 		vfAssert(got == ref, "a range renders once per element, else iff empty, whatever ran before")
